@@ -49,7 +49,7 @@ fn uname(labels: &[u8]) -> Name {
 #[derive(Serialize, Deserialize, Clone, Debug, PartialEq)]
 struct Owner {
     labels: Vec<u8>,
-    /// bit 0: A, bit 1: TXT
+    /// bit 0: A, bit 1: TXT; 4 = a CNAME (to ns.example.) and nothing else
     types: u8,
 }
 
@@ -70,6 +70,11 @@ enum Rewrite {
     ReplayWildcard(u8),
     /// add a denial RRset of the zone's second NSEC3 chain (same zone, other salt) — C09 only
     AddAltChain(u8),
+    /// the best NXDOMAIN an attacker who knows the chain can forge: empty answer, rcode
+    /// NXDOMAIN, and for every name whose absence would have to be shown (the query name, its
+    /// ancestors' next-closer names and wildcards) the genuine record that comes closest to
+    /// covering it — its strict predecessor in the chain — plus the records matching the ancestors
+    PredecessorProof,
 }
 
 #[derive(Serialize, Deserialize, Clone, Debug)]
@@ -135,6 +140,10 @@ impl ZoneTruth {
         owners.entry("ns.example.".into()).or_default().insert(u16::from(RecordType::A));
         for o in &p.owners {
             let e = owners.entry(uname(&o.labels).to_lowercase().to_string()).or_default();
+            if o.types == 4 {
+                e.insert(u16::from(RecordType::CNAME));
+                continue;
+            }
             if o.types & 1 != 0 {
                 e.insert(u16::from(RecordType::A));
             }
@@ -155,7 +164,8 @@ impl ZoneTruth {
         self.owners.keys().any(|o| o == name || o.ends_with(&format!(".{name}")))
     }
     fn has_type(&self, name: &str, t: RecordType) -> bool {
-        self.owners.get(name).map(|s| s.contains(&u16::from(t))).unwrap_or(false)
+        // a CNAME at the name answers every type (the response then carries the CNAME)
+        self.owners.get(name).map(|s| s.contains(&u16::from(t)) || s.contains(&u16::from(RecordType::CNAME))).unwrap_or(false)
     }
     fn eval(&self, qname: &Name, qtype: RecordType) -> Outcome {
         let q = qname.to_lowercase();
@@ -168,7 +178,13 @@ impl ZoneTruth {
                 return Outcome::Referral;
             }
         }
+        // a CNAME whose target (ns.example., A only) lacks the type gives a CNAME + NODATA
+        // chain, i.e. two proofs in one response: outside the simple claims judged here
+        let cname_chain_nodata = |owner: &str| self.owners.get(owner).map(|s| s.contains(&u16::from(RecordType::CNAME))).unwrap_or(false) && !matches!(qtype, RecordType::A | RecordType::CNAME);
         if self.node_exists(&qs) {
+            if cname_chain_nodata(&qs) {
+                return Outcome::Referral;
+            }
             return if self.has_type(&qs, qtype) { Outcome::Data } else { Outcome::NoData { ent: !self.owners.contains_key(&qs) } };
         }
         // closest encloser
@@ -180,6 +196,9 @@ impl ZoneTruth {
         }
         let source = format!("*.{}", ce).replace("*..", "*.");
         if self.owners.contains_key(&source) {
+            if cname_chain_nodata(&source) {
+                return Outcome::Referral;
+            }
             if self.has_type(&source, qtype) {
                 Outcome::WildcardData { source, labels_below_ce: below }
             } else {
@@ -202,6 +221,10 @@ fn zone_spec(p: &Plan, alt: bool) -> ZoneSpec {
     ];
     for (i, ow) in p.owners.iter().enumerate() {
         let name = uname(&ow.labels);
+        if ow.types == 4 {
+            records.push(Record::from_rdata(name.clone(), 300, RData::CNAME(hickory_proto::rr::rdata::CNAME(n("ns.example.")))));
+            continue;
+        }
         if ow.types & 1 != 0 {
             records.push(Record::from_rdata(name.clone(), 300, RData::A(A::new(192, 0, 2, 100 + i as u8))));
         }
@@ -245,6 +268,93 @@ async fn harvest(z: &ZoneRt) -> Vec<Denial> {
     out
 }
 
+/// order key of a name in the chain: canonical name order for NSEC, hash order for NSEC3
+fn chain_key(name: &Name, nsec3: Option<&(Vec<u8>, u16)>) -> Vec<u8> {
+    match nsec3 {
+        Some((salt, it)) => hickory_proto::dnssec::Nsec3HashAlgorithm::SHA1.hash(salt, name, *it).map(|d| d.as_ref().to_vec()).unwrap_or_default(),
+        None => {
+            // canonical order: compare label by label from the right, lower-cased
+            let mut k = Vec::new();
+            for l in name.to_lowercase().iter().rev() {
+                k.extend_from_slice(l);
+                k.push(0);
+            }
+            k
+        }
+    }
+}
+
+fn denial_key(d: &Denial, nsec3: Option<&(Vec<u8>, u16)>) -> Vec<u8> {
+    match nsec3 {
+        Some(_) => d.owner.iter().next().and_then(|l| data_encoding_decode(l)).unwrap_or_default(),
+        None => chain_key(&d.owner, None),
+    }
+}
+
+/// base32hex (no padding) decoder for NSEC3 owner labels
+fn data_encoding_decode(label: &[u8]) -> Option<Vec<u8>> {
+    let mut bits = 0u32;
+    let mut nbits = 0;
+    let mut out = Vec::new();
+    for c in label {
+        let v = match c.to_ascii_lowercase() {
+            b'0'..=b'9' => c - b'0',
+            c2 @ b'a'..=b'v' => c2 - b'a' + 10,
+            _ => return None,
+        } as u32;
+        bits = (bits << 5) | v;
+        nbits += 5;
+        if nbits >= 8 {
+            nbits -= 8;
+            out.push((bits >> nbits) as u8);
+            bits &= (1 << nbits) - 1;
+        }
+    }
+    Some(out)
+}
+
+fn predecessor_proof(qname: &Name, harvested: &[Denial], nsec3: Option<&(Vec<u8>, u16)>) -> Vec<Denial> {
+    let zone = Name::from_ascii("example.").unwrap();
+    let mut keyed: Vec<(Vec<u8>, &Denial)> = harvested.iter().map(|d| (denial_key(d, nsec3), d)).collect();
+    keyed.sort_by(|a, b| a.0.cmp(&b.0));
+    let mut picked: Vec<Denial> = Vec::new();
+    let mut add = |d: &Denial| {
+        if !picked.iter().any(|x| x.owner == d.owner) {
+            picked.push(d.clone());
+        }
+    };
+    // names whose absence has to be "shown": the query name, and below every ancestor the next
+    // closer name and the wildcard
+    let mut targets: Vec<Name> = vec![qname.clone()];
+    let mut anc = qname.base_name();
+    let mut child = qname.clone();
+    loop {
+        targets.push(child.clone());
+        if let Ok(w) = anc.prepend_label("*") {
+            targets.push(w);
+        }
+        // the record matching the ancestor (closest encloser candidate)
+        let k = chain_key(&anc, nsec3);
+        if let Some((_, d)) = keyed.iter().find(|(kk, _)| *kk == k) {
+            add(d);
+        }
+        if anc == zone || anc.is_root() {
+            break;
+        }
+        child = anc.clone();
+        anc = anc.base_name();
+    }
+    for t in targets {
+        let k = chain_key(&t, nsec3);
+        // strict predecessor in chain order (wrapping to the last record)
+        let pred = keyed.iter().rev().find(|(kk, _)| *kk < k).or_else(|| keyed.last());
+        if let Some((_, d)) = pred {
+            add(d);
+        }
+    }
+    picked
+}
+
 fn is_denial(r: &Record) -> bool {
     matches!(r.record_type(), RecordType::NSEC | RecordType::NSEC3) || matches!(&r.data, RData::DNSSEC(DNSSECRData::RRSIG(s)) if matches!(s.input().type_covered, RecordType::NSEC | RecordType::NSEC3))
 }
@@ -260,14 +370,16 @@ fn denial_owners(m: &Message) -> Vec<Name> {
 }
 
 fn gen_rewrite(r: &mut Rng, nsec3: bool) -> Rewrite {
-    match r.below(if nsec3 { 9 } else { 8 }) {
-        0 | 1 => Rewrite::FlipRcode,
+    match r.below(if nsec3 { 10 } else { 9 }) {
+        0 => Rewrite::FlipRcode,
+        1 => Rewrite::PredecessorProof,
         2 => Rewrite::DropDenial(1 + r.below(7) as u8),
         3 => Rewrite::AddDenial(r.below(16) as u8),
         4 => Rewrite::ReplaceDenial(r.next_u64() as u16),
         5 => Rewrite::StripAnswer,
         6 => Rewrite::DropSoa,
         7 => Rewrite::ReplayWildcard(r.below(8) as u8),
+        8 => Rewrite::FlipRcode,
         _ => Rewrite::AddAltChain(r.below(16) as u8),
     }
 }
@@ -288,7 +400,8 @@ fn gen_plan(seed: u64, nsec3: bool) -> Plan {
         if owners.iter().any(|o| o.labels == labels) {
             continue;
         }
-        owners.push(Owner { labels, types: 1 + r.below(3) as u8 });
+        let types = if r.chance(1, 7) { 4 } else { 1 + r.below(3) as u8 };
+        owners.push(Owner { labels, types });
     }
     let delegation = if r.chance(1, 5) {
         let d = vec![r.below(2) as u8];
@@ -448,6 +561,7 @@ fn rewrite_code(r: Rewrite) -> u64 {
         Rewrite::DropSoa => 6,
         Rewrite::ReplayWildcard(_) => 7,
         Rewrite::AddAltChain(_) => 8,
+        Rewrite::PredecessorProof => 9,
     }
 }
 
@@ -460,6 +574,18 @@ async fn scenario(p: Plan) {
     let truth = ZoneTruth::build(&p);
     let zone = build_zone(&zone_spec(&p, false));
     let harvested = harvest(&zone).await;
+    // the zone's signed SOA (a genuine negative response carries it)
+    let soa_set: Vec<Record> = {
+        let recs = zone.handler.records().await;
+        let mut v = Vec::new();
+        for (k, set) in recs.iter() {
+            if k.record_type == RecordType::SOA {
+                v.extend(set.records_without_rrsigs().cloned());
+                v.extend(set.rrsigs().iter().cloned());
+            }
+        }
+        v
+    };
     let alt_harvest = if p.nsec3 && p.rewrites.iter().any(|r| matches!(r, Rewrite::AddAltChain(_))) { harvest(&build_zone(&zone_spec(&p, true))).await } else { vec![] };
     let world = Arc::new(World { zones: vec![zone] });
     let router = Router::new(world.clone());
@@ -493,11 +619,13 @@ async fn scenario(p: Plan) {
         }
     }
 
+    let nsec3_params: Option<(Vec<u8>, u16)> = if p.nsec3 { Some(((0..p.salt_len).map(|i| 0xA0 + i).collect(), p.iterations)) } else { None };
     let applied = Arc::new(std::sync::Mutex::new(Vec::<String>::new()));
     {
         let rewrites = p.rewrites.clone();
         let victim2 = victim.clone();
         let harvested = harvested.clone();
+        let soa_set = soa_set.clone();
         let alt = alt_harvest.clone();
         let applied = applied.clone();
         let donors = donors.clone();
@@ -550,6 +678,18 @@ async fn scenario(p: Plan) {
                             m.metadata.response_code = ResponseCode::NoError;
                         }
                     }
+                    Rewrite::PredecessorProof => {
+                        let picked = predecessor_proof(&victim2.name, &harvested, nsec3_params.as_ref());
+                        m.answers.clear();
+                        m.metadata.response_code = ResponseCode::NXDomain;
+                        m.authorities.retain(|r| !is_denial(r));
+                        if !m.authorities.iter().any(|r| r.record_type() == RecordType::SOA) {
+                            m.authorities.extend(soa_set.iter().cloned());
+                        }
+                        for d in picked {
+                            m.authorities.extend(d.records.iter().cloned());
+                        }
+                    }
                     Rewrite::AddAltChain(k) => {
                         if !alt.is_empty() {
                             let d = &alt[k as usize % alt.len()];
@@ -584,6 +724,7 @@ async fn scenario(p: Plan) {
     };
     let qt = victim.query_type;
     let outcome = truth.eval(&victim.name, qt);
+    exec::log(&format!("delivered rcode={:?} an={} ns={:?}; verdict {}", delivered.metadata.response_code, delivered.answers.len(), delivered.authorities.iter().map(|r| format!("{} {}", r.name, r.record_type())).collect::<Vec<_>>(), match &result { Some(Ok(r)) => format!("Ok rcode={:?} an={} ns={}", r.metadata.response_code, r.answers.len(), r.authorities.len()), Some(Err(e)) => format!("Err {e}"), None => "none".into() }));
     exec::count(&format!("probe.truth.{}", outcome_name(&outcome)));
 
     // ---- what does the delivered response claim? --------------------------------------------
@@ -617,7 +758,7 @@ async fn scenario(p: Plan) {
         (_, Outcome::Referral) => true, // not judged
         // RFC 5155 8.6: under opt-out a DS NODATA answer for a name without an NSEC3 record of
         // its own is legitimate (the name may be an unsigned delegation inside an opt-out span)
-        (Claim::NoData, Outcome::NxDomain) if p.nsec3 && p.opt_out && qt == RecordType::DS => true,
+        (Claim::NoData, Outcome::NxDomain) | (Claim::NoData, Outcome::WildcardData { .. }) | (Claim::NoData, Outcome::WildcardNoData { .. }) if p.nsec3 && p.opt_out && qt == RecordType::DS => true,
         (Claim::NxDomain, Outcome::NxDomain) => true,
         (Claim::NxDomain, _) => false,
         (Claim::NoData, Outcome::NoData { .. }) | (Claim::NoData, Outcome::WildcardNoData { .. }) => true,
@@ -640,7 +781,34 @@ async fn scenario(p: Plan) {
             if secure && !claim_true {
                 let _ = &applied_now;
                 let has_soa = delivered.authorities.iter().any(|r| r.record_type() == RecordType::SOA);
-                let shape = format!("{:?}-for-{}{}", claim, outcome_name(&outcome).split("-below").next().unwrap().trim_end_matches(|c: char| c.is_ascii_digit()).trim_end_matches('-'), if has_soa { "" } else { ":no-soa" });
+                // Attribution to the known defect of `find_covering_record`'s wrap-around branch
+                // (the last NSEC3 record of the chain, owner hash > next hash, "covers" every
+                // hash): the same response without that record is validated again; if it is then
+                // no longer accepted, the false denial needed the record.
+                let is_wrap = |r: &Record| match &r.data {
+                    RData::DNSSEC(DNSSECRData::NSEC3(n)) => r.name.iter().next().and_then(data_encoding_decode).map(|own| own.as_slice() > n.next_hashed_owner_name()).unwrap_or(false),
+                    _ => false,
+                };
+                let wrap_owner: Option<Name> = delivered.authorities.iter().find(|r| is_wrap(r)).map(|r| r.name.clone());
+                let mut needs_wrap = false;
+                if let (Some(wo), true) = (&wrap_owner, matches!(claim, Claim::NxDomain | Claim::NoData)) {
+                    let mut m2 = delivered.clone();
+                    m2.authorities.retain(|r| !(r.name == *wo && is_denial(r)));
+                    let victim3 = victim.clone();
+                    router.set_tamper(move |_n, q, genuine| if *q == victim3 { (Some(m2.clone()), true) } else { (Some(genuine), false) });
+                    let v2 = DnssecDnsHandle::with_trust_anchor(router.clone(), anchors_for(&[KeyRef::ed(0)])).nsec3_iteration_limits(Some(p.soft_limit), Some(p.hard_limit));
+                    let r2 = v2.lookup(victim.clone(), opts).next().await;
+                    let secure2 = match &r2 {
+                        Some(Ok(resp)) => {
+                            let all: Vec<&Record> = resp.answers.iter().chain(resp.authorities.iter()).filter(|r| r.record_type() != RecordType::RRSIG).collect();
+                            !all.is_empty() && all.iter().all(|r| r.proof == Proof::Secure)
+                        }
+                        _ => false,
+                    };
+                    needs_wrap = !secure2;
+                    exec::count(if needs_wrap { "probe.false-denial.needs-last-nsec3" } else { "probe.false-denial.without-last-nsec3" });
+                }
+                let shape = format!("{:?}-for-{}{}{}", claim, outcome_name(&outcome).split("-below").next().unwrap().trim_end_matches(|c: char| c.is_ascii_digit()).trim_end_matches('-'), if has_soa { "" } else { ":no-soa" }, if needs_wrap { ":needs-last-nsec3" } else { "" });
                 if exec::violate(&format!("{id}.unsound"), &shape, format!("{} {}: response claiming {:?} (rcode {:?}, {} answers) accepted as Secure, but the zone says {:?}; rewrites {:?}; owners {:?}; opt_out={} delegation={:?}", victim.name, qt, claim, rcode, answer_recs.len(), outcome, p.rewrites, p.owners, p.opt_out, p.delegation)) {
                     return;
                 }
